@@ -13,7 +13,7 @@ import (
 
 // Op is one step of a transaction program.
 type Op struct {
-	Kind string   `json:"k"`            // get bget iter riter set insert delete lock sleep stage release discard
+	Kind string   `json:"k"`              // get bget iter riter set insert delete lock sleep stage release discard
 	Keys []string `json:"keys,omitempty"` // get/set/delete/insert: Keys[0]; bget/lock: all
 	Val  string   `json:"v,omitempty"`
 	Lo   string   `json:"lo,omitempty"` // iter: start / riter: lower bound
@@ -49,10 +49,11 @@ type TopoEvent struct {
 
 // Knobs are per-run tunables of the code under test (never mirrored by oracles).
 type Knobs struct {
-	CommitBatchSize int `json:"commit_batch_size,omitempty"` // twoPCRequestBatchSizeLimit failpoint (bytes→keys)
-	ManagedTTLMs    int `json:"managed_ttl_ms,omitempty"`
-	ScanBatch       int `json:"scan_batch,omitempty"`
-	ResolveLite     int `json:"resolve_lite,omitempty"`
+	CommitBatchSize int  `json:"commit_batch_size,omitempty"` // twoPCRequestBatchSizeLimit failpoint (bytes→keys)
+	ManagedTTLMs    int  `json:"managed_ttl_ms,omitempty"`
+	ScanBatch       int  `json:"scan_batch,omitempty"`
+	ResolveLite     int  `json:"resolve_lite,omitempty"`
+	LongTTL         bool `json:"long_ttl,omitempty"` // no lock expires during the run (C06)
 }
 
 // NetCfg configures the simulated network.
@@ -75,7 +76,7 @@ type Scenario struct {
 	Txns     []TxnProg   `json:"txns"`
 	Topo     []TopoEvent `json:"topo,omitempty"`
 	Net      NetCfg      `json:"net"`
-	Victim   int         `json:"victim"`           // txn id whose client is crashed by a plan entry (-1 none)
+	Victim   int         `json:"victim"`            // txn id whose client is crashed by a plan entry (-1 none)
 	Readers  int         `json:"readers,omitempty"` // extra snapshot readers (C05)
 	DryRun   bool        `json:"-"`
 	Keyspace bool        `json:"keyspace,omitempty"`
